@@ -17,7 +17,7 @@ from .. import kernel as K
 ID = "C12"
 ENGINE = "iosim"
 LEVEL = "exploration"
-BUDGET = {"quick": 75, "thorough": 1200}
+BUDGET = {"quick": 60, "thorough": 1200}
 RUN_TIMEOUT = 150
 SHRINK_TIMEOUT = 150
 SELFTEST_PAIRS = {"quick": 10, "thorough": 30}
